@@ -1,8 +1,18 @@
 import QR.Model.Matrix
 import QR.Spec.Geometry
 import QR.Proofs.Finite
+import QR.Proofs.ReadBack
+import QR.Props.C03
+import QR.Props.C09
 /-
-C05 - function patterns and geometry (finite part so far: alignment table = Annex E closed form, mask functions).
+C05 - function patterns, geometry and data placement of every symbol.
+Finite part: alignment table = Annex E closed form, mask functions = ISO Table 10.
+Symbolic part (all 40 versions, 4 levels, 8 masks, EVERY codeword content): the matrix `makeImpl` returns is
+(4v+17) x (4v+17) with every module definite; finder patterns, separators, timing patterns, alignment patterns and the
+dark module hold the colours the per-cell Spec predicates (`Spec.fixedColour`: Chebyshev rings around the three finder
+centres, Annex E centres, parity on row/column 6) assign - independently of data, level and mask; and the data region,
+read in ISO zig-zag order over the non-function modules and unmasked (`Spec.readRaw`), is exactly the codeword bits, most
+significant bit first, followed by the remainder bits, all zero.  Stated for `Model.makeImpl` and for `Model.compile`.
 -/
 namespace QR.Props
 open QR
@@ -40,5 +50,155 @@ theorem C05_spec_alignment_sane : ∀ v, v < 39 →
   intro v hv
   have := forall_lt_of_all h v hv
   simpa [Bool.and_eq_true, and_assoc] using this
+
+/-! ### the built symbol -/
+
+/-- **C05 (size, definiteness)**: for every version 1..40, level, mask, trial/final flag and EVERY list of codewords,
+    `makeImpl` returns a (4v+17) x (4v+17) matrix in which every module is definite (no `None` left) -/
+theorem C05_size_definite (v level mask : Nat) (test : Bool) (data : List Nat)
+    (h1 : 1 ≤ v) (h40 : v ≤ 40) (hl : level < 4) (hk : mask < 8)
+    (M : Model.Mat) (h : Model.makeImpl v level test mask data = .ok M) :
+    M.size = 4 * v + 17 ∧ (∀ r, r < 4 * v + 17 → (M.getD r #[]).size = 4 * v + 17) ∧
+    ∀ r c, r < 4 * v + 17 → c < 4 * v + 17 → (M.get r c).isSome = true := by
+  obtain ⟨M', hM', hshape, hsome, _⟩ := Sym.makeImpl_spec v level mask test data h1 h40 hl hk
+  rw [h] at hM'
+  injection hM' with hM'
+  subst hM'
+  exact ⟨hshape.1, hshape.2, hsome⟩
+
+/-- **C05 (function patterns)**: in the final symbol every module to which the ISO layout assigns a fixed colour
+    (`Spec.fixedColour`: finder patterns, separators, timing patterns, alignment patterns, dark module) holds that
+    colour - for every data content, level and mask: function patterns are data-independent -/
+theorem C05_function (v level mask : Nat) (data : List Nat)
+    (h1 : 1 ≤ v) (h40 : v ≤ 40) (hl : level < 4) (hk : mask < 8)
+    (M : Model.Mat) (h : Model.makeImpl v level false mask data = .ok M) :
+    ∀ r c b, r < 4 * v + 17 → c < 4 * v + 17 → Spec.fixedColour v r c = some b → M.get r c = some b := by
+  obtain ⟨M', hM', _, _, hblank, hinfo, _⟩ := Sym.makeImpl_spec v level mask false data h1 h40 hl hk
+  rw [h] at hM'
+  injection hM' with hM'
+  subst hM'
+  intro r c b hr hc hb
+  rcases Sym.fixedColour_cases v r c b hb with hb | ⟨hd, rfl⟩
+  · exact hblank r c b hr hc hb
+  · exact hinfo r c true hr hc (Sym.infoCell_dark v level mask h1 false r c hd)
+
+/-- the same for the trial symbols of `best_mask_pattern` (`test = True`) and the final one alike: every fixed-colour
+    module except the dark module holds its ISO colour; the dark module holds `not test` (light in a trial symbol,
+    exactly as the Python code writes it) -/
+theorem C05_function_any (v level mask : Nat) (test : Bool) (data : List Nat)
+    (h1 : 1 ≤ v) (h40 : v ≤ 40) (hl : level < 4) (hk : mask < 8)
+    (M : Model.Mat) (h : Model.makeImpl v level test mask data = .ok M) :
+    (∀ r c b, r < 4 * v + 17 → c < 4 * v + 17 → Spec.fixedColour v r c = some b →
+      Spec.isDarkModule (4 * v + 17) r c = false → M.get r c = some b) ∧
+    M.get (4 * v + 9) 8 = some (!test) := by
+  obtain ⟨M', hM', _, _, hblank, hinfo, _⟩ := Sym.makeImpl_spec v level mask test data h1 h40 hl hk
+  rw [h] at hM'
+  injection hM' with hM'
+  subst hM'
+  constructor
+  · intro r c b hr hc hb hnd
+    rcases Sym.fixedColour_cases v r c b hb with hb | ⟨hd, _⟩
+    · exact hblank r c b hr hc hb
+    · rw [show Spec.size v = 4 * v + 17 from rfl, hnd] at hd; cases hd
+  · apply hinfo (4 * v + 9) 8 (!test) (by unfold Spec.size; omega) (by unfold Spec.size; omega)
+    apply Sym.infoCell_dark v level mask h1 test
+    simp [Spec.isDarkModule, Spec.size]
+
+/-- format, version and dark-module cells hold the ISO words' bits (C04 transported to the finished symbol) -/
+theorem C05_info (v level mask : Nat) (test : Bool) (data : List Nat)
+    (h1 : 1 ≤ v) (h40 : v ≤ 40) (hl : level < 4) (hk : mask < 8)
+    (M : Model.Mat) (h : Model.makeImpl v level test mask data = .ok M) :
+    ∀ r c b, Spec.infoCell v level mask test r c = some b → M.get r c = some b := by
+  obtain ⟨M', hM', _, _, _, hinfo, _⟩ := Sym.makeImpl_spec v level mask test data h1 h40 hl hk
+  rw [h] at hM'
+  injection hM' with hM'
+  subst hM'
+  intro r c b hb
+  obtain ⟨hr, hc⟩ := Sym.infoCell_inBounds v level mask h1 test r c b hb
+  exact hinfo r c b hr hc hb
+
+/-- **C05 (data placement)**: for a full codeword sequence, the data region of the symbol - the non-function modules
+    in ISO zig-zag order (two-module strips from the right, alternately upwards and downwards, skipping the vertical
+    timing column), with the mask removed - is exactly the codeword bits, MSB first, followed by `remainderBits v` zero
+    bits.  `S` is any Boolean view of the matrix. -/
+theorem C05_data (v level mask : Nat) (test : Bool) (data : List Nat)
+    (h1 : 1 ≤ v) (h40 : v ≤ 40) (hl : level < 4) (hk : mask < 8)
+    (M : Model.Mat) (h : Model.makeImpl v level test mask data = .ok M)
+    (hlen : data.length = Spec.totalCodewords v)
+    (S : Spec.Sym) (hn : S.n = 4 * v + 17)
+    (hS : ∀ r c, r < 4 * v + 17 → c < 4 * v + 17 → S.get r c = (M.get r c).getD false) :
+    Spec.readRaw S v mask = Model.codewordBits data ++ List.replicate (Spec.remainderBits v) false := by
+  obtain ⟨M', hM', _, _, _, _, hraw, _⟩ := Sym.makeImpl_spec v level mask test data h1 h40 hl hk
+  rw [h] at hM'
+  injection hM' with hM'
+  subst hM'
+  rw [hraw S ⟨hn, hS⟩, Sym.rawModules_eq, ← hlen, ← GeoC.codewordBits_length, GeoC.padTake_append]
+
+/-- the same for a codeword list of any length: the stream is cut / zero-filled to the `rawModules v` data modules
+    (`map_data` stops consuming when the bits run out and writes light (masked) modules) -/
+theorem C05_data_any (v level mask : Nat) (test : Bool) (data : List Nat)
+    (h1 : 1 ≤ v) (h40 : v ≤ 40) (hl : level < 4) (hk : mask < 8)
+    (M : Model.Mat) (h : Model.makeImpl v level test mask data = .ok M)
+    (S : Spec.Sym) (hn : S.n = 4 * v + 17)
+    (hS : ∀ r c, r < 4 * v + 17 → c < 4 * v + 17 → S.get r c = (M.get r c).getD false) :
+    Spec.readRaw S v mask = GeoC.padTake (Spec.rawModules v) (Model.codewordBits data) ∧
+    (Spec.readRaw S v mask).length = Spec.rawModules v := by
+  obtain ⟨M', hM', _, _, _, _, hraw, _⟩ := Sym.makeImpl_spec v level mask test data h1 h40 hl hk
+  rw [h] at hM'
+  injection hM' with hM'
+  subst hM'
+  rw [hraw S ⟨hn, hS⟩]
+  exact ⟨rfl, GeoC.padTake_length _ _⟩
+
+/-- cell form, not going through the reader: the `i`-th cell of the zig-zag order, if it is not a function module,
+    holds bit number (non-function cells before it) of the codeword stream, xor the ISO mask condition -/
+theorem C05_data_cell (v level mask : Nat) (test : Bool) (data : List Nat)
+    (h1 : 1 ≤ v) (h40 : v ≤ 40) (hl : level < 4) (hk : mask < 8)
+    (M : Model.Mat) (h : Model.makeImpl v level test mask data = .ok M)
+    (i : Nat) (hi : i < (Spec.zigzag (4 * v + 17)).length)
+    (hf : Spec.isFunction v (Spec.zigzag (4 * v + 17))[i].1 (Spec.zigzag (4 * v + 17))[i].2 = false) :
+    M.get (Spec.zigzag (4 * v + 17))[i].1 (Spec.zigzag (4 * v + 17))[i].2 =
+      some (xor ((Model.codewordBits data).getD
+                  (((Spec.zigzag (4 * v + 17)).take i).countP fun p => !Spec.isFunction v p.1 p.2) false)
+                (Spec.maskCond mask (Spec.zigzag (4 * v + 17))[i].1 (Spec.zigzag (4 * v + 17))[i].2)) :=
+  Sym.makeImpl_cell v level mask test data M h1 h40 hl hk h i hi hf
+
+/-- **C05 for `compile`**: every symbol `make` produces - any valid configuration, level, list of valid segments - is
+    (4v+17) x (4v+17), every module definite, every fixed-colour function module at its ISO colour, and its data region
+    (zig-zag order, unmasked with the mask `compile` reports) is exactly the bits of the `create_data` codewords followed
+    by zero remainder bits -/
+theorem C05_compile (cfg : Model.Cfg) (hcfg : cfg.Valid) (l : Spec.Level) (hl : cfg.level = l.indicator)
+    (segs : List Model.Seg) (hv : ∀ s ∈ segs, s.Valid) (v m : Nat) (M : Model.Mat)
+    (h : Model.compile cfg segs = .ok (v, m, M)) :
+    M.size = 4 * v + 17 ∧ (∀ r, r < 4 * v + 17 → (M.getD r #[]).size = 4 * v + 17) ∧
+    (∀ r c, r < 4 * v + 17 → c < 4 * v + 17 → (M.get r c).isSome = true) ∧
+    (∀ r c b, r < 4 * v + 17 → c < 4 * v + 17 → Spec.fixedColour v r c = some b → M.get r c = some b) ∧
+    ∃ data, Model.createData v cfg.level segs = .ok data ∧ data.length = Spec.totalCodewords v ∧
+      Spec.readRaw { n := M.size, get := fun r c => (M.get r c).getD false } v m =
+        Model.codewordBits data ++ List.replicate (Spec.remainderBits v) false := by
+  obtain ⟨ps, hp⟩ := toPSegs_of_valid hv
+  obtain ⟨h1, h40, hm7, _⟩ := C03_ok_range cfg hcfg l hl segs hv ps hp v m M h
+  have hk : m < 8 := by omega
+  have hdm : ∃ data, Model.createData v cfg.level segs = .ok data ∧
+      Model.makeImpl v cfg.level false m data = .ok M := by
+    cases hcm : cfg.mask with
+    | some m' =>
+      obtain ⟨rfl, data, hd, hM⟩ := C09_explicit cfg segs m' hcm v m M h
+      exact ⟨data, hd, hM⟩
+    | none =>
+      obtain ⟨data, hd, _, hM⟩ := C09_auto_recorded cfg segs hcm v m M h
+      exact ⟨data, hd, hM⟩
+  obtain ⟨data, hd, hM⟩ := hdm
+  have hli : cfg.level < 4 := hl ▸ Sym.indicator_lt l
+  obtain ⟨a1, a2, a3⟩ := C05_size_definite v cfg.level m false data h1 h40 hli hk M hM
+  have hlen : data.length = Spec.totalCodewords v :=
+    (Sym.createData_spec v h1 h40 l segs hv ps hp data (hl ▸ hd)).1
+  exact ⟨a1, a2, a3, C05_function v cfg.level m data h1 h40 hli hk M hM, data, hd, hlen,
+    C05_data v cfg.level m false data h1 h40 hli hk M hM hlen _ a1 (fun _ _ _ _ => rfl)⟩
+
+/-- non-vacuity: a version-1 symbol, all claims of `C05_compile` evaluated on it -/
+example : (match Model.compile { version := 1, level := 1, mask := some 2, fit := false } [{ mode := 4, data := [104, 105] }] with
+    | .ok (v, _, M) => M.size == 21 && v == 1 && M.get 13 8 == some true && M.get 6 8 == some true && M.get 7 7 == some false
+    | .error _ => false) = true := by decide +kernel
 
 end QR.Props
